@@ -318,5 +318,34 @@ def _r5(ctx):
                         rp = resolve_path(P, b, v)
                         if rp is not None and rp[2][-1:] == ("serverip",) and edge_dominated(cfg, te, bb):
                             okk = True
+    # the interface MTU and router in it are the receiving interface's at the time of *this* request: the policy given to the
+    # handlers is the builder's result for the request being handled, not something remembered from an earlier one
+    n = 0
+    for b in P.bodies.values():
+        if not b.id.endswith("dhcp::handle_pkt"):
+            continue
+        T = terms(P, b)
+        req = {pl[0] for pl in b.var_places("request") if len(pl) == 1}
+        for bb, tm in b.calls():
+            cn = callee_name(tm) or ""
+            if not (cn.endswith("dhcp::handle_discover") or cn.endswith("dhcp::handle_request")) or len(tm["args"]) < 4:
+                continue
+            n += 1
+            ctx.saw(b)
+            v = norm(T.call_args(bb)[3])
+            while True:
+                if v[0] in ("ref", "deref", "cast") and len(v) > 1 and isinstance(v[1], tuple):
+                    v = norm(v[1])
+                elif v[0] == "agg" and len(v) > 3 and len(v[3]) == 1:
+                    v = norm(v[3][0][1])
+                elif v[0] == "call" and len(v[2]) == 1 and str(v[1]).rsplit("::", 1)[-1] in ("deref", "as_ref", "as_slice", "borrow", "into", "from", "new", "into_boxed_slice", "to_vec"):
+                    v = norm(v[2][0])
+                else:
+                    break
+            built = v[0] == "call" and str(v[1]).endswith("dhcp::build_default_config")
+            mine = built and len(v[2]) == 2 and any(y[0] == "param" and y[1] in req for y in subterms(norm(v[2][1])))
+            ctx.check(built and mine, "R5", "base-policy-built-for-this-request:%s" % cn.rsplit("::", 1)[-1], ctx.where(b, tm["sp"]),
+                      "the base policy given to the handler must be build_default_config(conf, request) for the request in hand (is %s)" % show(v)[:160])
+    ctx.floor("R5", "handler calls given a base policy", n, 2)
     ctx.check(okk, "R5", "base-policy:$self4<-request.serverip", ctx.where(P.bodies[roots[0]]),
               "the $self4 placeholder in dns-servers must be replaced by the receiving address")
